@@ -410,7 +410,7 @@ TypedAcceptable(kind, oc, fmt, dev) ==
       [] kind = "z"     -> oc.k = "num" /\ oc.n2 = 0                                  \* a zero is a value, not an empty cell
       [] kind = "bf"    -> oc.k = "bool" /\ oc.b = FALSE
       [] kind = "b"     -> oc.k = "bool" /\ oc.b = TRUE
-      [] kind = "d"     -> oc.k = "str" /\ oc.s = "2024-01-02T03:04:05"              \* dates as ISO strings
+      [] kind = "d"     -> oc.k = "str" /\ oc.s \in {"2024-01-02T03:04:05", "2024-01-02 03:04:05"}   \* dates as ISO strings (T or blank)
       [] kind = "date"  -> oc.k = "str" /\ oc.s \in {"2024-01-02", "2024-01-02T00:00:00"}
       [] kind = "t"     -> oc.k = "str" /\ oc.s \in {"03:04:05", "PT03H04M05S"}       \* either ISO 8601 form
       [] kind = "e"     -> \/ (oc.k = "str" /\ oc.s = "#DIV/0!")
